@@ -64,7 +64,7 @@ impl Scenario for ChaosCli {
     fn runs(&self, tier: Tier) -> u64 {
         match tier {
             Tier::Quick => 300,
-            Tier::Thorough => 15_000,
+            Tier::Thorough => 4_000,
         }
     }
     fn shrink_paths(&self) -> Vec<&'static str> {
@@ -221,9 +221,9 @@ impl Scenario for Chaos {
     fn runs(&self, tier: Tier) -> u64 {
         match (self.full_stack, tier) {
             (false, Tier::Quick) => 2_500,
-            (false, Tier::Thorough) => 300_000,
+            (false, Tier::Thorough) => 40_000,
             (true, Tier::Quick) => 500,
-            (true, Tier::Thorough) => 30_000,
+            (true, Tier::Thorough) => 8_000,
         }
     }
     fn shrink_paths(&self) -> Vec<&'static str> {
